@@ -34,6 +34,14 @@ def jobs(tier):
         if s == 2:
             J.append(Job("c11", "aba", "3,0,0,0" if q else "4,0,0,0", p))
             J.append(Job("c11", "aba", "2,1,0,0", p))
+    # the other exported entry points: variants without state, caller-held pop mutex (cds_*_pop_lock / unlock)
+    for (k, s, a) in ((0, 0, 1), (0, 0, 2), (0, 1, 1), (1, 0, 2)):
+        p = {"kind": k, "sync": s, "api2": a}
+        J.append(Job("c11", "pop2" if s == 0 else "pp", "2,0,0,0" if q else "3,0,0,0", p))
+        J.append(Job("c11", "popall", "2,0,0,0" if q else "3,0,0,0", p))
+        if s == 0:
+            J.append(Job("c11", "repush", "2,0,0,0" if q else "3,0,0,0", p))
+    J.append(Job("c11", "pp", "2,0,0,0", {"kind": 0, "sync": 1, "nonblocking": 1, "api2": 1}))
     J.append(Job("c11", "pp", "2,0,0,0", {"kind": 0, "sync": 1, "nonblocking": 1}))
     J.append(Job("c11", "last", "3,0,0,0", {"kind": 0, "sync": 1, "nonblocking": 1}))
     return J
